@@ -3,7 +3,8 @@
 Exhaustive enumeration of inputs x configurations over the wire, on one really indexed chain of
 2,020 blocks whose script hashes have confirmed histories of exactly limit-1 .. limit+2 entries
 for every derived limit (MAX_SEND in {0, 350000, 350063, 350064, 350163, unset}):
- * blockchain.block.headers(start, count, cp) for start around 0 and the chain end, count
+ * blockchain.block.headers(start, count, cp) for start around 0 and the chain end (also on
+   the image left by a crash after the flat files ran two blocks past the committed tip), count
    around 0, the 2016 cap and the distance to the tip, cp around the last header and the tip;
  * scripthash.get_history / subscribe, each twice (cold and cached), for every history length;
  * a subscription whose history grows past the limit with the next block.
@@ -98,9 +99,36 @@ def indexed_snapshot():
     return _SNAP
 
 
-def boot(config):
+_STALE = None
+
+
+def stale_tail_image():
+    '''The image left by a crash after two more blocks' headers / tx hashes were written to the
+    flat files (history-only flush) but before any UTXO commit: the files run past the tip.'''
+    global _STALE
+    if _STALE is None:
+        base, more = long_chain()
+        tip = len(base) - 1
+        m = world.Machine.from_snapshot(indexed_snapshot())
+        w = world.World(m, reorg_limit=10, activation=5)
+        w.daemon.set_chain(base + more)
+        w.flush_schedule = {tip + 1: False, tip + 2: False}
+        w.start_sync()
+        w.run_until_caught_up()
+        log = list(m.log)
+        w.close(destroy=False)
+        m.destroy()
+        cut = next(i for i, e in enumerate(log) if e[0] == 'db' and e[1].endswith('utxo')
+                   and e[2] == 'batch')
+        if not any(e[0] == 'write' and 'headers' in e[1] for e in log[:cut]):
+            raise common.Broken('no header write before the UTXO commit')
+        _STALE = (log[:cut],)
+    return _STALE[0]
+
+
+def boot(config, stale_tail=False):
     base, more = long_chain()
-    m = world.Machine.from_snapshot(indexed_snapshot())
+    m = world.Machine.from_snapshot(indexed_snapshot(), stale_tail_image() if stale_tail else ())
     ms = None if config == 'unset' else int(config)
     s = system.System(m, reorg_limit=10, activation=5, max_send=ms)
     s.boot(base)
@@ -156,7 +184,9 @@ def fold(h, branch, index):
 def case_headers(case, res):
     base, _ = long_chain()
     tip = len(base) - 1
-    s = boot('350000')
+    s = boot('350000', stale_tail=case.get('stale_tail', False))
+    if s.db.state.height != tip:
+        raise common.Broken('index not at the expected tip')
     try:
         c = s.connect()
         c.call('server.version', ['x', '1.4.2'])
@@ -201,7 +231,8 @@ def case_headers(case, res):
                             pass
                     if bad:
                         res.violation('headers:' + bad[0], dict(kind='headers1', start=start,
-                                                                count=count, cp=cp),
+                                                                count=count, cp=cp,
+                                                                stale_tail=case.get('stale_tail', False)),
                                       dict(start=start, count=count, cp=cp, **bad[1]))
         res.distinct('parts', 'headers')
     finally:
@@ -318,7 +349,7 @@ def run_case(case, res):
         case_headers(case, res)
     elif case['kind'] == 'headers1':
         base, _ = long_chain()
-        s = boot('350000')
+        s = boot('350000', stale_tail=case.get('stale_tail', False))
         try:
             c = s.connect()
             r = c.call('blockchain.block.headers', [case['start'], case['count'], case['cp']])
@@ -330,7 +361,8 @@ def run_case(case, res):
 
 
 def cases_for(tier):
-    cases = [dict(kind='headers', lo=i, hi=i + 1) for i in range(7)]
+    cases = [dict(kind='headers', lo=i, hi=i + 1, stale_tail=st) for i in range(7)
+             for st in (False, True)]
     for config in CONFIGS:
         for order in ('hist-first', 'sub-first', 'mixed'):
             cases.append(dict(kind='history', config=config, order=order))
@@ -341,7 +373,7 @@ def run(tier, seed, started):
     cases = cases_for(tier)
     res = farm(run_case, cases, seed=seed, chunk=1)
     c = res.counters
-    if c.get('headers_requests', 0) < 250 or c.get('history_requests', 0) < 300 or \
+    if c.get('headers_requests', 0) < 500 or c.get('history_requests', 0) < 300 or \
             not c.get('growth_steps'):
         raise common.Broken(f'vacuous C17 run: {c}')
     coverage = {
